@@ -15,6 +15,8 @@ const (
 	// drawn by RandomTerm (the semantic monitors stay with the spellings C08 documents) and is used
 	// where only validity / scanning matters (C05 sequences, C15 prefixes).
 	SpLaterPlus = numSpell
+	// SpOnlyPlus is X-only+ : "replace X by X-only" applied inside the term X+ (C08); it means X or later.
+	SpOnlyPlus = numSpell + 1
 )
 
 // Case mutation applied to listed ids (license and exception). Suffixes added by the harness
@@ -98,6 +100,8 @@ func (t Term) Text() string {
 		s += "-or-later"
 	case SpLaterPlus:
 		s += "-or-later+"
+	case SpOnlyPlus:
+		s += "-only+"
 	}
 	if t.Exc != "" {
 		s += " WITH " + mutateCase(t.Exc, t.Case, t.CaseKey+1)
@@ -119,7 +123,7 @@ func (t Term) Denote(u *Universe) Den {
 		d.Plus = true
 	}
 	switch t.Spell {
-	case SpPlus, SpLater, SpLaterPlus:
+	case SpPlus, SpLater, SpLaterPlus, SpOnlyPlus:
 		d.Plus = true
 	}
 	if strings.HasSuffix(d.ID, "-or-later") {
@@ -139,7 +143,7 @@ func (u *Universe) SpellOK(id string, sp int) bool {
 		return true
 	case SpPlus:
 		return !hasPlusChar
-	case SpOnly, SpLater, SpLaterPlus:
+	case SpOnly, SpLater, SpLaterPlus, SpOnlyPlus:
 		if !u.ActiveSet[id] || strings.HasSuffix(id, "-only") || strings.HasSuffix(id, "-or-later") {
 			return false
 		}
@@ -149,7 +153,7 @@ func (u *Universe) SpellOK(id string, sp int) bool {
 }
 
 // RefNames are the user-defined names used for LicenseRef / DocumentRef terms.
-var RefNames = []string{"a", "A", "b", "x1", "My-Ref.2", "my-ref.2", "MIT", "mit", "0", "FOO", "foo", "Foo", "Apache-2.0", "LicenseRef-x", "a.b-c.1"}
+var RefNames = []string{"a", "A", "b", "x1", "My-Ref.2", "my-ref.2", "MIT", "mit", "0", "FOO", "foo", "Foo", "Apache-2.0", "LicenseRef-x", "a.b-c.1", "aLicenseRef-b", "ab", "x"}
 
 // RandomTerm draws a term of a random kind.
 func (u *Universe) RandomTerm(r *Rand) Term {
@@ -176,7 +180,7 @@ func (u *Universe) RandomTerm(r *Rand) Term {
 		}
 		t := Term{ID: id}
 		for try := 0; try < 4; try++ {
-			sp := r.Intn(numSpell)
+			sp := r.Intn(numSpell + 2) // including X-or-later+ and X-only+ (an explicit '+' after the suffix is redundant: X or later)
 			if u.SpellOK(id, sp) {
 				t.Spell = sp
 				break
